@@ -76,3 +76,19 @@ def init_state(run):
 def registry(run, tag):
     from contracts import system_edit as SE
     _discharge(run, [o for o in (SE.obligations(run, Source()) or []) if o.get("kind") == "canary" or tag in o.get("tags", [])], "registry operations")
+
+
+def frame(run):
+    try:
+        from contracts import frame as FR
+    except ImportError:
+        run.notes.append("frame analysis not built yet"); return
+    FR.frame_obligations(run, Source())
+
+
+def batt_life(run, tag):
+    try:
+        from contracts import battlife as BL
+    except ImportError:
+        run.notes.append("batt_life slice contract not built yet"); return
+    _discharge(run, [o for o in (BL.obligations(run, Source()) or []) if o.get("kind") == "canary" or tag in o.get("tags", [])], "batt_life")
